@@ -35,7 +35,7 @@ def xLine (a : ArgC) : Bytes := bstr "303 " ++ ofChars a.node ++ bstr ": " ++ bs
 
 /-- one line of the temperature reply for an entry with a value; nothing for an entry without -/
 def tempLine (a : ArgC) : Bytes := match a.val with
-  | some v => bstr "303 " ++ ofChars a.node ++ bstr ": " ++ v ++ crlf
+  | some v => bstr "303 " ++ ofChars a.node ++ bstr ": " ++ firstLine v ++ crlf
   | none => []
 def tempMissing (c : CmdC) : List Name := ((entriesOf c).filter (·.val.isNone)).map (·.node)
 def tempTail (r : Bytes) : Bytes := bstr "303 " ++ r ++ bstr ": unknown" ++ crlf
@@ -260,7 +260,7 @@ theorem finalReply_query_suffix (ex : Bool) (c : CmdC) (h : isQueryCom c.com = t
     · rw [finalReply_status_x c (Or.inr hc)] at hr
       cases hr; exact List.suffix_append _ _
 
-def valLine (n : Name) (v : Bytes) : Bytes := bstr "303 " ++ ofChars n ++ bstr ": " ++ v ++ crlf
+def valLine (n : Name) (v : Bytes) : Bytes := bstr "303 " ++ ofChars n ++ bstr ": " ++ firstLine v ++ crlf
 
 theorem tempLine_some {a : ArgC} {v : Bytes} (h : a.val = some v) : tempLine a = valLine a.node v := by
   simp [tempLine, valLine, h]
